@@ -77,6 +77,9 @@ type Solver struct {
 	declSyms map[string]Sort
 	declUFs  map[string]bool
 	axDone   map[string]bool
+
+	timeoutMs int
+	curLimit  int // limit in force in the live process (0: configured)
 }
 
 func solverSpec(name string, timeoutMs int) ([]string, string) {
@@ -93,7 +96,7 @@ func solverSpec(name string, timeoutMs int) ([]string, string) {
 
 func NewSolver(name string, timeoutMs int) *Solver {
 	argv, prelude := solverSpec(name, timeoutMs)
-	s := &Solver{Name: name, argv: argv, prelude: prelude}
+	s := &Solver{Name: name, argv: argv, prelude: prelude, timeoutMs: timeoutMs}
 	return s
 }
 
@@ -259,6 +262,7 @@ func (s *Solver) resetState() {
 	s.declSyms = map[string]Sort{}
 	s.declUFs = map[string]bool{}
 	s.axDone = map[string]bool{}
+	s.curLimit = 0
 }
 
 // Check decides base ∧ extra. The base (a path condition) is kept asserted in
@@ -266,6 +270,11 @@ func (s *Solver) resetState() {
 // to the previous query is sent. With wantModel the values of all symbols in
 // scope are returned on sat.
 func (s *Solver) Check(base []*Term, extra []*Term, wantModel bool, hardTimeout time.Duration) (Result, Model, string) {
+	return s.CheckLimit(base, extra, wantModel, hardTimeout, 0)
+}
+
+// CheckLimit is Check with a per-query time limit in ms (0: the solver's configured limit).
+func (s *Solver) CheckLimit(base []*Term, extra []*Term, wantModel bool, hardTimeout time.Duration, limitMs int) (Result, Model, string) {
 	if s.cmd == nil || s.dead {
 		if s.cmd != nil {
 			s.Close()
@@ -276,6 +285,18 @@ func (s *Solver) Check(base []*Term, extra []*Term, wantModel bool, hardTimeout 
 		s.resetState()
 	}
 	var q strings.Builder
+	if limitMs != s.curLimit {
+		ms := limitMs
+		if ms == 0 {
+			ms = s.timeoutMs
+		}
+		if s.Name == "cvc5" {
+			fmt.Fprintf(&q, "(set-option :tlimit-per %d)\n", ms)
+		} else {
+			fmt.Fprintf(&q, "(set-option :timeout %d)\n", ms)
+		}
+		s.curLimit = limitMs
+	}
 	k := 0
 	for k < len(s.stack) && k < len(base) && s.stack[k].key == base[k].Key() {
 		k++
@@ -673,9 +694,19 @@ func (p *Portfolio) Check(base []*Term, extra []*Term, wantModel bool) (Result, 
 	if len(live) == 0 && len(base) == 0 {
 		return Sat, Model{}, ""
 	}
+	// two rounds: every solver with a short limit first (a query one back end
+	// cannot do is often trivial for another), then every solver with the full limit
 	reason := ""
+	if len(p.Solvers) > 1 {
+		for _, s := range p.Solvers {
+			r, m, _ := s.CheckLimit(base, live, wantModel, p.Hard, 1500)
+			if r != Unknown {
+				return r, m, ""
+			}
+		}
+	}
 	for _, s := range p.Solvers {
-		r, m, why := s.Check(base, live, wantModel, p.Hard)
+		r, m, why := s.CheckLimit(base, live, wantModel, p.Hard, 0)
 		if r != Unknown {
 			return r, m, ""
 		}
